@@ -242,9 +242,10 @@ def explore_config(ast, probes, table, resolver, R0, K, L, alphabet, wb, max_pat
     dev_variants = []
     if devs:
         walk = [d for d in devs if d != 'last-word-skipped-at-command-point']
-        dev_variants.append(tuple(walk))
-        if 'last-word-skipped-at-command-point' in devs:
-            dev_variants.append(tuple(walk) + ('last-word-skipped-at-command-point',))
+        for choice in (0, 1, 2):
+            dev_variants.append((tuple(walk), choice))
+            if 'last-word-skipped-at-command-point' in devs:
+                dev_variants.append((tuple(walk) + ('last-word-skipped-at-command-point',), choice))
 
     def program(e):
         it = bashsym.Interp(e, probes, wb)
@@ -265,8 +266,8 @@ def explore_config(ast, probes, table, resolver, R0, K, L, alphabet, wb, max_pat
         alts = []
         log_alts = []
         if same is not True or logf is not True:
-            for dv in dev_variants:
-                c2 = refsym.Ctx(e.decide, table, [], dv)
+            for (dv, choice) in dev_variants:
+                c2 = refsym.Ctx(e.decide, table, [], dv, choice)
                 _, exp2 = refsym.complete(c2, resolver, R0, words_sym, prefix_sym, wb)
                 eq2 = seteq(reply, exp2, shown)
                 alts.append(eq2)
@@ -330,12 +331,13 @@ def attribute(resolver, R0, table, ws, wb, real_set, shown, devs=KNOWN_DEVS, rea
     given, the command invocations); None if none does."""
     for n in range(1, len(devs) + 1):
         for combo in itertools.combinations(devs, n):
-            ctx = refsym.Ctx(lambda c: bool(c), table, [], combo)
-            _, c = refsym.complete(ctx, resolver, R0, ws[:-1], ws[-1], wb)
-            if set(c) - {shown} == real_set - {shown}:
-                if real_log is not None and log_ok(real_log, ctx) is not True:
-                    continue
-                return combo
+            for choice in (0, 1, 2):
+                ctx = refsym.Ctx(lambda c: bool(c), table, [], combo, choice)
+                _, c = refsym.complete(ctx, resolver, R0, ws[:-1], ws[-1], wb)
+                if set(c) - {shown} == real_set - {shown}:
+                    if real_log is not None and log_ok(real_log, ctx) is not True:
+                        continue
+                    return combo
     return None
 
 
